@@ -1790,7 +1790,7 @@ theorem doc_pages (d : Doc) :
     | nil => exact absurd hq this
     | cons _ _ => simp
   · rename_i hne
-    cases hc : (chunks d.sections none).map (·.1) with
+    cases hc : (chunks (withPositions d.sections 0 none) none).map (·.1) with
     | nil => simp at hc; simp [hc] at hne
     | cons r rs =>
       have := page_sequence_nonempty d.ltr r rs 0 (initRightPage d.rootBreak d.ltr)
